@@ -1,5 +1,5 @@
 (* C07 - Authenticator data is laid out byte-for-byte as WebAuthn specifies. *)
-From Ctap Require Import Base Schema Wire Typed Procs Inst Tables ProcTables Finite FramingP WireP LayoutP C18P ObResponseSide FnShapes Shapes ObShapeAuthdata.
+From Ctap Require Import Base Schema Wire Typed Procs Inst Tables ProcTables Finite FramingP WireP LayoutP C18P ObResponseSide FnShapes Shapes ObShapeAuthdata Deps ObDeps.
 Local Open Scope string_scope.
 Local Open Scope Z_scope.
 
@@ -48,6 +48,10 @@ Proof. vm_compute. reflexivity. Qed.
 Theorem c07_modelled_functions_unchanged_authdata : shapes_hold fn_shapes shapes_authdata = true.
 Proof. exact generated_shapes_authdata. Qed.
 
+(* the third-party crates the model represents by hand are pinned at the versions it was written against *)
+Theorem c07_modelled_dependencies_pinned : deps_hold lock_versions cargo_deps = true.
+Proof. exact generated_deps. Qed.
+
 Eval vm_compute in "ASSUMPTIONS c07_layout". Print Assumptions c07_layout.
 Eval vm_compute in "ASSUMPTIONS c07_counter_be". Print Assumptions c07_counter_be.
 Eval vm_compute in "ASSUMPTIONS c07_idlen_be". Print Assumptions c07_idlen_be.
@@ -55,3 +59,4 @@ Eval vm_compute in "ASSUMPTIONS c07_generated_consts". Print Assumptions c07_gen
 Eval vm_compute in "ASSUMPTIONS c07_spec_consts". Print Assumptions c07_spec_consts.
 Eval vm_compute in "ASSUMPTIONS c07_generated_conforms". Print Assumptions c07_generated_conforms.
 Eval vm_compute in "ASSUMPTIONS c07_modelled_functions_unchanged_authdata". Print Assumptions c07_modelled_functions_unchanged_authdata.
+Eval vm_compute in "ASSUMPTIONS c07_modelled_dependencies_pinned". Print Assumptions c07_modelled_dependencies_pinned.
